@@ -112,6 +112,10 @@ def _same(b, c):
             return b == c
         fb, fc = float(b), float(c)
         return (fb == fc) or (fb != fb and fc != fc)
+    # a symbolic (finite) value replaced by NaN / inf, or the other way round, is a change
+    for x in (b, c):
+        if not isinstance(x, Sym) and not isinstance(x, (list, tuple)) and float(x) != float(x) or (not isinstance(x, Sym) and not isinstance(x, (list, tuple)) and abs(float(x)) == float("inf")):
+            return False
     return lift(b) == lift(c)
 
 
